@@ -335,7 +335,7 @@ func c07Run(c *core.Ctx) {
 	// thrown off by the first and damage the second)
 	b = B("literal-interplay")
 	first := []string{"`http://x`", "`a\\`b`", "\"//\"", "'\"'", "\"'\"", "'`'", "`\"`", "`'`", "\"\\\\\"", "`\\\\`", "'a\\'b'", "`${`}`", "\"a\\\"b\"", "'//'", "`// `"}
-	second := []string{"`p  \n  q  \n`", "`  \n\nz`", "`k \n`", "`\t \n \t`"}
+	second := []string{"`p  \n  q  \n`", "`  \n\nz`", "`k \n`", "`\t \n \t`", "`a \" b  \n c `", "`it's  \n' `"}
 	for _, f := range first {
 		for _, sec := range second {
 			b.add(f + " + " + sec)
